@@ -22,7 +22,10 @@ PairOK(ev) ==
   /\ G("C15", "ConstructionFromCString", ev.from_cstr = CStr(a) /\ ev.view_cstr_len = Len(CStr(a)))
   /\ G("C15", "ConstructionFromViewCopyAssign", ev.from_view = a /\ ev.copy = a /\ ev.assigned = a /\ ev.view_back = a)
   /\ G("C15", "Concatenation", ev.plus = a \o b /\ ev.plus_char = Append(a, 97) /\ ev.append = a \o b)
-  /\ G("C15", "OwnedStringsStayTerminated", ev.term = 1 /\ ev.term2 = 1)
+  /\ G("C15", "FillConstructor", ev.fill = [i \in 1..Len(a) |-> 98])
+  /\ G("C15", "IndexingAndIteration", ev.index_str = a /\ ev.index_view = a /\ ev.iter = a /\ ev.citer = a)
+  /\ G("C15", "SizeAndEmptiness", ev.sizes = Len(a) * 100 + Len(a) /\ ev.empties = B(a = <<>>) + 2)
+  /\ G("C15", "OwnedStringsStayTerminated", ev.term = 1 /\ ev.term2 = 1 /\ ev.term3 = 1)
 
 \* expected contents after a mutating operation on the owned string s
 NewS(ev) ==
